@@ -328,8 +328,14 @@ static int run_script(vh_ctx_t * v) {
     /* termination of the response: only where every call was determined and matched */
     if (ok && hard_ok && !m_soft) {
         size_t end = g_nops ? g_ops[g_nops - 1].out_after : 0;
-        if (v->out.len != end + 2 || memcmp(v->out.p + end, "\r\n", 2) != 0 || v->out.len != g_exp.len + 2)
-            { report("C17:response-termination", g_nops - 1, "response not terminated by exactly the line ending", v, end, g_exp.len); ok = 0; }
+        if (v->out.len != end + 2 || memcmp(v->out.p + end, "\r\n", 2) != 0 || v->out.len != g_exp.len + 2) {
+            const op_t * last = &g_ops[g_nops - 1];
+            /* a response consisting of an empty array only: whether it is terminated depends on the block being counted as an item */
+            if (g_nops == 1 && last->op == OP_ARR && last->n == 0 && v->out.len == end)
+                report(last->fmt != host_fmt() ? "C17:empty-swapped-array-not-counted" : "C17:empty-array-not-counted", g_nops - 1, "response holding only an empty binary array is not terminated", v, end, g_exp.len);
+            else report("C17:response-termination", g_nops - 1, "response not terminated by exactly the line ending", v, end, g_exp.len);
+            ok = 0;
+        }
         else if (v->nflush != 1) { report("C17:response-flush", g_nops - 1, "response not flushed exactly once", v, end, g_exp.len); ok = 0; }
         else if (v->nerrs_total != 0) { report("C17:spurious-error", g_nops - 1, "error reported for a correct call sequence", v, end, g_exp.len); ok = 0; }
         else vh_count("response.terminated_and_flushed_once", 1);
